@@ -1,4 +1,4 @@
-CONSTANTS NK = 12  NV = 4
+CONSTANTS NK = 12
 INIT TraceInit
 NEXT TraceNext
 INVARIANTS C10_CacheTransparent OracleIsReference ServedAsModelled ModelFitsCode
